@@ -132,9 +132,10 @@ def oracle(case, outcome, ctx):
             want = {"contaminant"}
             ctx.count("absent:target-mode")
         elif design.get("haps"):
-            up = sname.upper()
-            want = expected_keys("hap1" if up.startswith("HAP1") else "hap2" if up.startswith("HAP2") else "none", design)
-            if not up.startswith("HAP"):
+            h1, h2 = design.get("hap_prefixes", ["HAP1", "HAP2"])
+            which = "hap1" if sname.startswith(h1 + "_") else "hap2" if sname.startswith(h2 + "_") else "none"
+            want = expected_keys(which, design)
+            if which == "none":
                 ctx.count("absent:unprefixed-in-haplotype-map")
             ctx.count("absent:haplotype-by-name")
         else:
@@ -249,6 +250,7 @@ def gates(c, tier):
         "absent:haplotype-by-name": 20,
         "absent:unprefixed-in-haplotype-map": 10,
         "label:tag:unprefixed-scaffold-in-haplotype-map": 100,
+        "label:tag:haplotype-names-without-digit": 100,
         "absent:plain": 50,
         "label:tag:primary": 50,
         "label:tag:haplotype-from-names-only": 50,
